@@ -46,7 +46,7 @@ def mandatory_bins(tier):
     b = ["flip_in:" + f for f in FIELDS + BEC2_FIELDS]
     b += ["cut_inside_dirsize", "cut_after_signature", "cut_drops_only_trailing_zeros_of_last_payload", "cut_inside_hex_pair", "cut_inside_comments", "cut_removes_only_final_newline",
           "binary_prefix", "text_prefix", "binary_suffix", "text_suffix", "key_bit_flip_bf3", "key_bit_flip_bec2_decryptor", "key_bit_flip_bec2_rewrapped", "bf3", "bec2",
-          "bec2_ecc", "encrypted_component", "zero_components", "three_components", "payload_len_1", "payload_len_16", "payload_len_17", "damage_returns_original_content"]
+          "bec2_ecc", "encrypted_component", "zero_components", "three_components", "payload_len_1", "payload_len_16", "payload_len_17", "damage_returns_original_content", "payload_longer_than_1024", "two_identical_payloads"]
     return b
 
 
@@ -106,6 +106,8 @@ def make_authentic(ns, rng, idx):
     """builds an authentic file with the real writer, checks it with the independent
     parser, and returns everything the oracle needs"""
     a = Authentic()
+    a.long_payload = False
+    a.duplicate_payload = False
     shapes = idx % 12
     ncomp = (0, 1, 3, 1, 2, 1, 1, 3, 1, 2, 1, 1)[shapes]
     comps = []
@@ -117,6 +119,14 @@ def make_authentic(ns, rng, idx):
             blob = blob[:-1].replace(b"\0", b"\1") + b"\0"  # last payload ends in exactly one zero byte
         declared = len(blob) if rng.random() < 0.6 else rng.randrange(1, len(blob) + 1)
         comps.append(MComp(G.gen_desc(rng, maxbytes=24), blob, declared, False))
+    if idx % 16 == 5 and comps:
+        # one long payload (> 1 KiB): MAC chaining over many blocks; byte positions are sampled for this file
+        comps[0] = MComp(comps[0].desc, rng.randbytes(1500 if idx % 32 == 5 else 2100), None, False)
+        a.long_payload = True
+    if idx % 16 in (6, 13) and comps:
+        # two byte-identical payloads (e.g. the same image for two hardware variants)
+        comps.append(MComp([(0xC4, b"\x00\x01")], comps[0].blob, comps[0].declared, False))
+        a.duplicate_payload = True
     if shapes in (3, 7, 9, 10):
         blob = G.gen_payload(rng, rng.choice((3, 16, 20)))
         comps.append(MComp([(0xC3, b"\x03"), (0xC2, b"\x02"), (0xC1, b"\x03"), (0xC5, b"\x01")], blob, len(blob), True))
@@ -174,6 +184,10 @@ def verdict(ns, ctx, a, what, text, detail, key=None, encs=None, changed=True):
 
 def run_authentic(ns, ctx, a, rng, full=True):
     ctx.bin(a.kind)
+    if a.long_payload:
+        ctx.bin("payload_longer_than_1024")
+    if a.duplicate_payload:
+        ctx.bin("two_identical_payloads")
     if a.has_ecc:
         ctx.bin("bec2_ecc")
     if any(c.encrypted for c in a.case.comps):
@@ -198,6 +212,8 @@ def run_authentic(ns, ctx, a, rng, full=True):
         reg = region_of(a.regs, pos)
         if a.has_ecc and pos >= auth_end and pos % 7:
             continue  # ECC files: full sweep of the header, every 7th byte of the body
+        if a.long_payload and reg == "payload" and pos % 29 and not (n - pos <= 40):
+            continue  # long payload: every 13th byte plus the tail
         old = a.binary[pos]
         for name, bit in REPL:
             if bit is not None:
@@ -225,6 +241,8 @@ def run_authentic(ns, ctx, a, rng, full=True):
     for cut in range(n):
         if a.has_ecc and cut > 8 and cut < auth_end - 2 and cut % 5:
             continue
+        if a.long_payload and 200 < cut < n - 60 and cut % 17:
+            continue
         ctx.bin("binary_prefix")
         if body < cut < body + 4:
             ctx.bin("cut_inside_dirsize")
@@ -237,6 +255,8 @@ def run_authentic(ns, ctx, a, rng, full=True):
     hex_start = a.text.index("\n\n") + 2 if comments else 1
     for cut in range(len(a.text)):
         if a.has_ecc and cut % 9:
+            continue
+        if a.long_payload and 400 < cut < len(a.text) - 120 and cut % 29:
             continue
         ctx.bin("text_prefix")
         if cut < hex_start:
@@ -325,6 +345,7 @@ def replay(rec, ctx):
     a.key = bytes.fromhex(rec["key"])
     a.specs = GB.spec_from_json(rec["specs"]) if rec.get("specs") else None
     a.has_ecc = False
+    a.long_payload = a.duplicate_payload = False
     key = bytes.fromhex(rec["reader_key"]) if rec.get("reader_key") else None
     if rec.get("damaged_text") is not None:
         verdict(ns, ctx, a, "replay", rec["damaged_text"], {}, key=key)
